@@ -124,6 +124,11 @@ def classify(frame, cmd_expected):
     # "too short to contain its status words" is a statement about the byte count: encapsulation status at
     # 8..12, CIP general status at 42 (SendRRData) / 48 (SendUnitData)
     need = {0x65: 12, 0x63: 12, 0x6F: 43, 0x70: 49}.get(cmd_expected, 24)
+    if len(frame) == 24:
+        # the header-only error reply the statement names: complete as it stands, its status word is the one in the header
+        cmd, length, sess, est, ctx8, opts = parse_encap_header(frame)
+        if est != 0 and length == 0 and (cmd_expected is None or cmd == cmd_expected):
+            return {"cls": "encap", "status": est, "body": False}
     if len(frame) < need:
         return {"cls": "short"}
     if len(frame) < 24:
